@@ -258,6 +258,35 @@ fn decoder_history(run: &mut Run, id: &str, text: &str) {
             broken.push_str("10,10,1000,2,0,L|1:1|2:2|3:3|4:4|5:5|6:6|7:7|8:8|9:9,1\n");
         }
     }
+    // a rejected line must not influence how the other lines decode: every inserted line is first
+    // checked to be rejected on its own (a file holding only that line yields no object)
+    let header: String = text.lines().take_while(|l| l.trim() != "[HitObjects]").map(|l| format!("{l}\n")).collect();
+    let rejected_alone = |line: &str| -> bool {
+        matches!(decode(&format!("{header}[HitObjects]\n{line}\n")), Ok(m) if m.hit_objects.is_empty())
+    };
+    if rejected_alone("256,192,1000,2,0,B|,1,") && rejected_alone("100,100,1500,2,0,B|100:100|:,1,100") {
+        let mut broken2 = String::new();
+        for line in text.lines() {
+            broken2.push_str(line);
+            broken2.push('\n');
+            if line.contains('|') {
+                broken2.push_str("256,192,1000,2,0,B|,1,\n");
+                broken2.push_str("100,100,1500,2,0,B|100:100|:,1,100\n");
+            }
+        }
+        if let (Ok(with), Ok(without)) = (decode(&broken2), &a) {
+            if format!("{:?}", with.hit_objects) != format!("{:?}", without.hit_objects) {
+                run.fail(
+                    "oracle:rejected-line-disturbs-later-lines",
+                    "",
+                    id,
+                    format!("{} objects with rejected slider lines in between, {} without", with.hit_objects.len(), without.hit_objects.len()),
+                    broken2.clone(),
+                );
+            }
+            run.count("decoder:rejected-lines-inserted");
+        }
+    }
     let _ = decode(&broken);
     let b = decode(text);
     match (a, b) {
